@@ -81,6 +81,41 @@ def sentinel_rule(ctx, rid):
     mtxt = norm(marker)
     if not isinstance(t.ops[0], (ast.Is, ast.IsNot)):
         rr.bad(ctx.finding(rid, ld, t, "the no-default test uses == instead of identity: array-valued placeholders compare element-wise", construct="sentinel-eq"), "identity test")
+    # the decision itself, as a truth table over (a placeholder was decided, wait, the result file exists):
+    # the placeholder stands in iff one was decided, the reaper does not wait, and the file is absent
+    holder = t
+    p_ = getattr(t, "_parent", None)
+    while p_ is not None and isinstance(p_, (ast.BoolOp, ast.UnaryOp)):
+        holder = p_
+        p_ = getattr(p_, "_parent", None)
+
+    def tv(e, has_default, wait_v, file_v):
+        if e is t:
+            r_ = not has_default            # `<default> is <sentinel>`
+            return r_ if isinstance(t.ops[0], (ast.Is, ast.Eq)) else not r_
+        if isinstance(e, ast.BoolOp):
+            vals_ = [tv(x, has_default, wait_v, file_v) for x in e.values]
+            return all(vals_) if isinstance(e.op, ast.And) else any(vals_)
+        if isinstance(e, ast.UnaryOp) and isinstance(e.op, ast.Not):
+            return not tv(e.operand, has_default, wait_v, file_v)
+        if isinstance(e, (ast.Name, ast.Attribute)) and norm(e).split(".")[-1].lstrip("_") == "wait":
+            return wait_v
+        if isinstance(e, ast.Call) and norm(e.func) in ("os.path.isfile", "os.path.exists"):
+            return file_v
+        raise AnalysisError("idiom changed: term `%s` of the Reaper's use-default decision" % norm(e))
+    if holder is not t:
+        wrong = []
+        for hd in (True, False):
+            for wv in (True, False):
+                for fv in (True, False):
+                    if tv(holder, hd, wv, fv) != (hd and not wv and not fv):
+                        wrong.append((hd, wv, fv))
+        if wrong:
+            hd, wv, fv = wrong[0]
+            rr.bad(ctx.finding(rid, ld, holder, "the Reaper's decision `%s` differs from 'a placeholder was decided and not waiting and the result file is absent' (e.g. placeholder decided=%s, wait=%s, file exists=%s): "
+                               "finished batches are replaced by placeholders, or missing ones are read as if present" % (norm(holder)[:90], hd, wv, fv), construct="use-default-decision"), "use-default decision")
+        else:
+            rr.ok("use-default decision == (placeholder decided and not wait and result absent) on all 8 valuations")
     # decision function's marker (computed by the table rule when it ran; recompute cheaply)
     from ..flow import NONE, TRUE, FALSE, is_const
     from .shared import _TableInter, _show
